@@ -7,7 +7,7 @@ from harness.core import enc, dec, guarded
 PID = "C02"
 ENV = {"BASES_DATA": os.path.join(tlc.SPEC_DIR, "data", "bases.json"),
        "URL_DATA": os.path.join(tlc.SPEC_DIR, "data", "urlgen.json")}
-NBASES = 30
+NBASES = len(__import__("json").load(open(__import__("os").path.join(core.ROOT, "spec", "data", "bases.json")))["bases"])
 ALLB = "{" + ",".join(str(i) for i in range(1, NBASES + 1)) + "}"
 
 
